@@ -62,6 +62,7 @@ type Op struct {
 	Sess  int    `json:"s"`
 	Local bool   `json:"local,omitempty"`
 	Hello Val    `json:"hello"`
+	Transport Val `json:"transport"` // join: transport details given to AttachClient (nil = none)
 	Ms    int64  `json:"ms,omitempty"`
 	M     *Msg   `json:"m,omitempty"`
 }
@@ -142,7 +143,12 @@ func modelLine(cmd string, op *Op, oracle int) string {
 			l = 1
 		}
 		fmt.Fprintf(&sb, "join %d %d ", modelSid(op.Sess), l)
-		orEmptyDict(op.Hello).Tokens(&sb)
+		h := orEmptyDict(op.Hello)
+		if op.Transport.T == 'd' && len(op.Transport.D) > 0 {
+			// AttachClient puts non-empty transport details into HELLO.Details
+			h = h.Set("transport", op.Transport)
+		}
+		h.Tokens(&sb)
 	case "drop":
 		fmt.Fprintf(&sb, "drop %d", modelSid(op.Sess))
 	case "tick":
